@@ -86,10 +86,7 @@ func (h *NFSProcedureHandler) handleCreate(body io.Reader, reply *RPCReply, auth
 	}
 
 	// The handle must name a directory (a file or symlink handle is NFS3ERR_NOTDIR).
-	node.mu.RLock()
-	isDir := node.attrs != nil && node.attrs.Mode&os.ModeDir != 0
-	node.mu.RUnlock()
-	if !isDir {
+	if h.currentMode(node)&os.ModeDir == 0 {
 		return nfsErrorWithWcc(reply, NFSERR_NOTDIR), nil
 	}
 
@@ -253,10 +250,7 @@ func (h *NFSProcedureHandler) handleMkdir(body io.Reader, reply *RPCReply, authC
 	}
 
 	// The handle must name a directory (a file or symlink handle is NFS3ERR_NOTDIR).
-	node.mu.RLock()
-	isDir := node.attrs != nil && node.attrs.Mode&os.ModeDir != 0
-	node.mu.RUnlock()
-	if !isDir {
+	if h.currentMode(node)&os.ModeDir == 0 {
 		return nfsErrorWithWcc(reply, NFSERR_NOTDIR), nil
 	}
 
@@ -393,10 +387,7 @@ func (h *NFSProcedureHandler) handleSymlink(body io.Reader, reply *RPCReply, aut
 	}
 
 	// The handle must name a directory (a file or symlink handle is NFS3ERR_NOTDIR).
-	node.mu.RLock()
-	isDir := node.attrs != nil && node.attrs.Mode&os.ModeDir != 0
-	node.mu.RUnlock()
-	if !isDir {
+	if h.currentMode(node)&os.ModeDir == 0 {
 		return nfsErrorWithWcc(reply, NFSERR_NOTDIR), nil
 	}
 
